@@ -761,6 +761,40 @@ func inprocParkedDial() (bool, bool, string) {
 	}
 }
 
+// pipeAddress: a pipe accepted by a listener that was given a wildcard port reports the address the listener is really
+// bound to (what Listener.Address says), in the hook events and afterwards.
+func pipeAddress(tr string) (bool, string) {
+	srv, cli := wire.New("pair"), wire.New("pair")
+	defer srv.Close()
+	defer cli.Close()
+	ad := map[string]string{"tcp": "tcp://127.0.0.1:0", "tls+tcp": "tls+tcp://127.0.0.1:0", "ws": "ws://127.0.0.1:0/p", "wss": "wss://127.0.0.1:0/p"}[tr]
+	l, err := srv.NewListener(ad, wire.Opts(tr, true))
+	if err != nil {
+		return false, "NewListener: " + err.Error()
+	}
+	got := make(chan [2]string, 4)
+	srv.SetPipeEventHook(func(ev mangos.PipeEvent, p mangos.Pipe) {
+		if ev == mangos.PipeEventAttached && p.Listener() != nil {
+			got <- [2]string{p.Address(), p.Listener().Address()}
+		}
+	})
+	if err := l.Listen(); err != nil {
+		return false, "Listen: " + err.Error()
+	}
+	if err := cli.DialOptions(l.Address(), wire.Opts(tr, false)); err != nil {
+		return false, "Dial " + l.Address() + ": " + err.Error()
+	}
+	select {
+	case g := <-got:
+		if g[0] != g[1] || g[0] != l.Address() || strings.HasSuffix(strings.SplitN(g[0], "/p", 2)[0], ":0") {
+			return false, fmt.Sprintf("accepted pipe reports %q, its listener %q", g[0], g[1])
+		}
+		return true, ""
+	case <-time.After(3 * time.Second):
+		return false, "no pipe attached within 3 s"
+	}
+}
+
 // send side: what Send writes for a header and a body
 func runSend(r *rand.Rand) string {
 	ipc := r.Intn(2) == 0
@@ -912,6 +946,15 @@ func main() {
 			fmt.Fprintln(os.Stderr, "stream: silent peers", tr, note)
 		}
 		late = append(late, fmt.Sprintf("(%q, %s, true)%s", "connections that stay silent before their handshake do not delay the next peer ("+tr+")", coqgen.Bool(ok), n))
+	}
+	for _, tr := range []string{"tcp", "tls+tcp", "ws", "wss"} {
+		ok, note := pipeAddress(tr)
+		n := ""
+		if note != "" {
+			n = " (* " + strings.ReplaceAll(note, "*)", "") + " *)"
+			fmt.Fprintln(os.Stderr, "stream: pipe address", tr, note)
+		}
+		late = append(late, fmt.Sprintf("(%q, %s, true)%s", "a pipe accepted on a wildcard port reports its listener's bound address ("+tr+")", coqgen.Bool(ok), n))
 	}
 	{
 		ret, errd, note := inprocParkedDial()
